@@ -30,6 +30,9 @@ pub mod util;
 pub mod k1_lib;
 mod k1_handles;
 pub mod k1_types;
+pub mod k1_misc;
+mod k1_mem;
+pub mod k1_views;
 mod k2_insert;
 mod k2_remove;
 mod k2_range;
